@@ -112,7 +112,11 @@ def gen_ops(rnd, n, ciphers):
     p = {'op': 'protect', 'cipher': rnd.choice(ciphers), 'hash': rnd.choice(HASHES), 'pw': 2, 'fresh': True}
     ops.append(p)
     ops.append(dict(p))
-    return ops[:n + 1]
+    ops = ops[:n + 1]
+    # twice the same foreign-protected key, re-protected with the same passphrase: specifier type and usage rotate with the sequence
+    fp = {'op': 'reprotect-foreign', 'usage': rnd.choice([254, 255]), 's2k': rnd.choice([0, 1, 3, 0]), 'alg': rnd.choice([(7, 2), (9, 8), (3, 2)]),
+          'rseed': rnd.randrange(1 << 30), 'cipher': rnd.choice(ciphers), 'hash': rnd.choice(HASHES), 'pw': 2}
+    return ops + [fp, dict(fp)]
 
 
 MESSAGES = ['attack at dawn', '', 'attack at dawn' * 200]
@@ -242,6 +246,15 @@ def run_sequence(arg):
                     rec.op = -1
                     vals = check_protect(key, PWS[op['pw']], rec.of(oi), f)
                     reprot = key
+                elif op['op'] == 'reprotect-foreign':
+                    # a key protected by ANOTHER implementation (simple / salted / iterated specifier, usage 254 / 255, any count) is
+                    # unlocked and protected anew: iterated and salted with a fresh salt and IV, as any other key
+                    blob = secretkeys.foreign_blob(PROTECT_KEY, op['usage'], op['s2k'], op['alg'][0], op['alg'][1], PWS[0], random.Random(op['rseed']))
+                    key, _ = pgpy.PGPKey.from_blob(blob)
+                    with key.unlock(PWS[0]):
+                        key.protect(PWS[op['pw']], getattr(SymmetricKeyAlgorithm, op['cipher']), getattr(HashAlgorithm, op['hash']))
+                    rec.op = -1
+                    vals = check_protect(key, PWS[op['pw']], rec.of(oi), f)
                 else:   # protect again, inside unlock, the key protected last (or a fresh one)
                     key = reprot
                     if key is None:
